@@ -158,6 +158,234 @@ fn run_case(sizes: &[usize], fail: Fail, prefilled: usize, overwrite: bool) -> R
     Ok(problems)
 }
 
+// ---------------------------------------------------------------------------------------------
+// Retirement of extents of hundreds of blocks with live neighbours directly behind them: the marker
+// writes are cut into pieces of 256 blocks, so every size around the piece boundaries is tried.
+
+#[derive(Clone, Copy, Debug, PartialEq, Eq)]
+pub enum Retire {
+    Delete,
+    OverwriteSmall,
+    OverwriteSame,
+}
+
+fn run_large(blocks: usize, how: Retire, reopen_before_refill: bool) -> Result<Vec<String>, String> {
+    let data_blocks = (2 * blocks + 16) as u64;
+    let mut cfg = Cfg::persistent(data_blocks);
+    cfg.cache = false;
+    let mut sut = Sut::create(cfg, "largeretire")?;
+    let st = sut.store().clone();
+    let mut want: Vec<(Vec<u8>, Vec<u8>)> = Vec::new();
+    let mut problems = Vec::new();
+    let big = big_value((blocks - 1) * 4096 + 1000, 0x71);
+    st.insert(b"big", &big).map_err(|e| format!("insert big: {e:?}"))?;
+    let _ = st.flush();
+    // neighbours directly behind the large extent
+    for (i, b) in [1usize, 2, 3].iter().enumerate() {
+        let key = format!("n{i}").into_bytes();
+        let v = value_of(50 + i, *b);
+        st.insert(&key, &v).map_err(|e| format!("insert neighbour: {e:?}"))?;
+        want.push((key, v));
+    }
+    let _ = st.flush();
+    match how {
+        Retire::Delete => {
+            st.delete(b"big").map_err(|e| format!("delete big: {e:?}"))?;
+        }
+        Retire::OverwriteSmall => {
+            let v = value_of(60, 1);
+            st.insert(b"big", &v).map_err(|e| format!("overwrite big: {e:?}"))?;
+            want.push((b"big".to_vec(), v));
+        }
+        Retire::OverwriteSame => {
+            let v = big_value((blocks - 1) * 4096 + 1000, 0x72);
+            st.insert(b"big", &v).map_err(|e| format!("overwrite big: {e:?}"))?;
+            want.push((b"big".to_vec(), v));
+        }
+    }
+    let _ = st.flush();
+    let _ = st.flush();
+    let desc = format!("an extent of {blocks} blocks retired by {how:?}, three live records directly behind it{}", if reopen_before_refill { ", restart before the hole is reused" } else { "" });
+    let check = |store: &feoxdb::FeoxStore, when: &str, want: &[(Vec<u8>, Vec<u8>)], problems: &mut Vec<String>| {
+        for (key, v) in want {
+            match store.get(key) {
+                Ok(got) if &got == v => {}
+                Ok(got) => problems.push(format!("C05: C08: [{desc}] {when}: key {} reads {} instead of its own value {}", show(key), show(&got), show(v))),
+                Err(e) => problems.push(format!("C05: C08: [{desc}] {when}: key {} reads {e:?} although nothing rewrites it", show(key))),
+            }
+        }
+        let d = store.verif_dump();
+        if d.buffered.is_empty() && d.retirements.is_empty() && d.records.iter().all(|r| r.sector != 0) {
+            for m in structural_live(&cfg, &d) {
+                problems.push(format!("{m} [{desc}] {when}"));
+            }
+        }
+    };
+    check(&st, "after the retirement", &want, &mut problems);
+    drop(st);
+    if reopen_before_refill {
+        if let Err(e) = sut.reopen() {
+            problems.push(format!("C03: C05: [{desc}] the device does not reopen: {e:?}"));
+            sut.close();
+            return Ok(problems);
+        }
+        let _call = crate::util::in_call("large-extent case (after reopen)");
+        check(&sut.store().clone(), "after a clean reopen", &want, &mut problems);
+    }
+    // the hole is reused by smaller extents (two thirds, then the rest in one-block records up to 8)
+    {
+        let _call = crate::util::in_call("large-extent case (refill)");
+        let st = sut.store().clone();
+        let v = big_value((blocks * 2 / 3).max(1) * 4096 - 3000, 0x73);
+        if st.insert(b"refill", &v).is_ok() {
+            want.push((b"refill".to_vec(), v));
+        }
+        for i in 0..8 {
+            let key = format!("r{i}").into_bytes();
+            let v = value_of(70 + i, 1);
+            if st.insert(&key, &v).is_ok() {
+                want.push((key, v));
+            }
+        }
+        let _ = st.flush();
+        let _ = st.flush();
+        check(&st, "after the hole was reused", &want, &mut problems);
+    }
+    match sut.reopen() {
+        Ok(()) => {
+            let _call = crate::util::in_call("large-extent case (final read-back)");
+            let st = sut.store().clone();
+            check(&st, "after the final reopen", &want, &mut problems);
+            if st.len() != want.len() {
+                problems.push(format!("C05: C02: [{desc}] after the final reopen the store holds {} keys, expected {}", st.len(), want.len()));
+            }
+        }
+        Err(e) => problems.push(format!("C03: C05: [{desc}] the device does not reopen after a clean close: {e:?}")),
+    }
+    sut.close();
+    Ok(problems)
+}
+
+/// Large-extent retirement family. `accept`: the property tags the calling check counts.
+pub fn run_large_family(accept: &[&str], thorough: bool, report: &mut Report) {
+    let sizes: Vec<usize> = if thorough { vec![255, 256, 257, 300, 511, 512, 513, 600, 767, 768, 769, 1000, 1023] } else { vec![255, 256, 257, 511, 512, 513, 600, 769] };
+    let mut cases = Vec::new();
+    for &b in &sizes {
+        for how in [Retire::Delete, Retire::OverwriteSmall, Retire::OverwriteSame] {
+            for reopen in [false, true] {
+                if !thorough && how == Retire::OverwriteSame && reopen {
+                    continue;
+                }
+                cases.push((b, how, reopen));
+            }
+        }
+    }
+    let n_cases = cases.len() as u64;
+    let bad: Mutex<Vec<(String, String)>> = Mutex::new(Vec::new());
+    let mach: Mutex<Vec<String>> = Mutex::new(Vec::new());
+    let stop = AtomicBool::new(false);
+    par_for_each(cases, crate::util::worker_threads(), &stop, |_, (b, how, reopen)| {
+        crate::util::set_context(json!({"engine": "largeretire", "blocks": b, "how": format!("{how:?}"), "reopen": reopen}));
+        let _call = crate::util::in_call("large-extent case (insert / flush / retire)");
+        match run_large(b, how, reopen) {
+            Ok(problems) => {
+                for p in problems {
+                    if super::accepted(accept, &p) {
+                        let mut g = bad.lock().unwrap();
+                        if g.len() < 40 {
+                            g.push((format!("{b}|{how:?}|{reopen}"), p));
+                        }
+                    }
+                }
+            }
+            Err(e) => mach.lock().unwrap().push(format!("largeretire {b} {how:?}: {e}")),
+        }
+    });
+    let mut bad = bad.into_inner().unwrap();
+    bad.sort_by_key(|b| (b.0.len(), b.0.clone()));
+    for (case, msg) in bad.into_iter().take(4) {
+        report.violation(format!("largeretire|{case}|{}", msg.chars().take(110).collect::<String>()), msg, json!({"engine": "largeretire", "case": case}));
+    }
+    for m in mach.into_inner().unwrap().into_iter().take(3) {
+        report.machinery(m);
+    }
+    report.add("evaluations", n_cases);
+    report.add("traces_validated_against_impl", n_cases);
+    report.set("large_extent_retirement_family", json!({"cases": n_cases, "extent_blocks": sizes, "retired_by": ["delete", "overwrite by one block", "overwrite by the same size"], "restart_before_reuse": [false, true], "exhaustive": true}));
+}
+
+// ---------------------------------------------------------------------------------------------
+// Closing a store whose device keeps failing: the drop must come back (C18), whatever is lost.
+
+pub fn run_close_on_failing_device(report: &mut Report) {
+    let mut all = Vec::new();
+    for workers in [1usize, 2] {
+        for kind in ["record writes fail", "every write fails", "fsyncs fail"] {
+            for pending in [1usize, 3] {
+                all.push((workers, kind, pending));
+            }
+        }
+    }
+    let cases = AtomicU64::new(0);
+    let stop = AtomicBool::new(false);
+    par_for_each(all, crate::util::worker_threads(), &stop, |_, (workers, kind, pending)| {
+        {
+            {
+                let cases = &cases;
+                let mut cfg = Cfg::persistent(24);
+                cfg.workers = workers;
+                cfg.cache = false;
+                let Ok(mut sut) = Sut::create(cfg, "closefail") else { return };
+                crate::util::set_context(json!({"engine": "closefail", "workers": workers, "kind": kind, "pending": pending}));
+                {
+                    let _call = crate::util::in_call("insert / flush before the device starts failing");
+                    let st = sut.store().clone();
+                    let _ = st.insert(b"durable", b"before the fault");
+                    let _ = st.flush();
+                    {
+                        let mut f = sut.sess.fault.lock();
+                        match kind {
+                            "record writes fail" => {
+                                // record data only: scrubbing markers and the journal keep working, so the batch
+                                // fails cleanly (retryable) instead of leaving the device indeterminate
+                                f.enabled = true;
+                                f.fail_from = Some(0);
+                                f.fail_from_kind = 1;
+                            }
+                            "every write fails" => f.fail_writes = true,
+                            _ => f.fail_fsyncs = true,
+                        }
+                    }
+                    for i in 0..pending {
+                        let _ = st.insert(format!("pending{i}").as_bytes(), b"accepted while the device fails");
+                    }
+                    if pending > 1 {
+                        let _ = st.delete(b"durable");
+                    }
+                }
+                // Sut::close runs the drop under the call watchdog ("close (drop)")
+                let t0 = std::time::Instant::now();
+                let seen_before = sut.sess.device_writes.load(std::sync::atomic::Ordering::SeqCst);
+                sut.close();
+                if std::env::var_os("VERIF_DEBUG_CLOSE").is_some() {
+                    eprintln!("closefail {workers} workers, {kind}, {pending} pending: drop took {:?}, device writes during the drop {}", t0.elapsed(), sut.sess.device_writes.load(std::sync::atomic::Ordering::SeqCst) - seen_before);
+                }
+                {
+                    let mut f = sut.sess.fault.lock();
+                    f.fail_data_writes = 0;
+                    f.fail_from = None;
+                    f.fail_writes = false;
+                    f.fail_fsyncs = false;
+                }
+                cases.fetch_add(1, Ordering::Relaxed);
+            }
+        }
+    });
+    let cases = cases.load(Ordering::Relaxed);
+    report.add("evaluations", cases);
+    report.set("close_on_failing_device_cases", cases);
+}
+
 /// All cases. `accept`: the property tags the calling check counts.
 pub fn run(accept: &[&str], thorough: bool, report: &mut Report) {
     let max_k = if thorough { 5 } else { 4 };
